@@ -2037,3 +2037,33 @@ def _infeasible_slot_errors(F, b, RB, PB):
                     IN[tb] = m
                     work.append(tb)
     return cut
+
+
+@rule('R09.9', ['C09', 'C02'], floor=1, clause='a datagram that has no route is not kept at the head of its socket\'s queue: the egress path tells "no route" (retrying cannot help) from "neighbour not yet resolved" (retry later), and only the latter leaves the packet queued')
+def r09_9(ctx):
+    F = ctx.F
+    IF = 'iface::interface::Interface'
+    se = ctx.method(IF, 'socket_egress')
+    fam = [se] + list(F.closures_of(se.key))
+    for c in list(fam):
+        fam += [x for x in F.closures_of(c.key) if x not in fam]
+    di = [k for k in F.bodies if k.endswith('InterfaceInner::dispatch_ip')]
+    ctx.need(di, "InterfaceInner::dispatch_ip")
+    callers = [b for b in fam if any(b.callee_name(x[1]) in di for x in b.calls())]
+    ctx.need(callers, "the dispatch_ip call of Interface::socket_egress")
+    DE = 'iface::interface::DispatchError'
+    told = False
+    for b in fam:
+        for bi, bl in enumerate(b.blocks):
+            if bl['cl'] or bl['t'][0] != 'switch':
+                continue
+            for tb, lab, f in cond_facts(F, b, bi):
+                if f[0] in ('is', 'isnot') and f[3] == DE:
+                    told = True
+                if f[0] == 'rel' and f[1] in ('Eq', 'Ne') and any('DispatchError::NoRoute' in show(x) or 'DispatchError::NeighborPending' in show(x) for x in (f[2], f[3])):
+                    told = True
+    if told:
+        ctx.ok(('socket_egress', 'NoRoute told apart'), sample=dict(fn='socket_egress', distinguishes='DispatchError::NoRoute / NeighborPending'))
+    else:
+        ctx.bad("socket_egress|no-route-kept-queued", "socket_egress maps every dispatch_ip error to the same retry-later outcome: a datagram whose destination has no route at all "
+                "stays at the head of its socket's transmit queue for ever, and every datagram queued behind it - also for resolvable destinations - is never transmitted", body=callers[0])
